@@ -1,4 +1,4 @@
-import ApolloModel.Proofs.ParserTree31
+import ApolloModel.Proofs.ParserTree32
 import ApolloModel.Proofs.ParserTreeDef13
 import ApolloModel.Proofs.AstDocument3
 import ApolloModel.Proofs.AstText7
@@ -721,5 +721,112 @@ theorem document_dispatch_cases (n : Nat) (s s' : PState) (t : Parse.Tok) (rest 
   Parse.documentDispatch_cases n s s' t rest st hc ht h hnd
 
 end PipelineTypeSystem
+
+section PipelineWhole
+open Apollo.Parse Apollo.Rowan
+
+/-- **document_pipeline_agrees — every accepted document, the whole grammar.**  `Parser::parse` (model; no token limit,
+    any recursion limit) without error: the significant tokens are `docToks its` for a non-empty list of items —
+    executable definitions in the long or shorthand form, type-system definitions and extensions up to the two
+    liberties (`LooseDef`: a leading `&` / `|` in a separated list, a root operation type without its named type) —
+    every item with the well-formedness facts the parser establishes (`DocItem.wfB`), and `Document::from_cst` on the
+    tree of the CST parser returns, item by item, `DocItem.conv` (for a loose definition `looseConv`: the leading
+    separator is not represented, the incomplete root operation is dropped).
+    STRICT CASE (`strictItems its = some items`: no liberty used): the tokens are the printer's tokens `itemsToks
+    items`, every definition satisfies `wfDefinition` (no hypothesis left), `from_cst` returns exactly the definitions
+    of `items`, and the reference parser `pDocument` returns the same list whenever the decomposition satisfies
+    `ItemsFollowOk` (a shorthand query directly follows only a definition that always ends in `}`; automatic for
+    executable documents, `followOk_of_closed`, and for the printer's shape, `followOk_tDocument`).  That is the
+    statement `from_cst_agrees_with_reference_parser` up to (1) the two liberties — where the reference parser rejects
+    and `from_cst` returns `looseConv` —, (2) `ItemsFollowOk` of the parser's own decomposition, which the
+    per-definition theorems do not export (it is the parser's greediness: what the next token after a definition was),
+    and (3) the fuel constant of `modelsAgree`. -/
+theorem document_pipeline_agrees (rl : Nat) (src : Parse.Str) (root : Elem)
+    (h : (parse .document none rl src).outcome = .tree root) (herr : (parse .document none rl src).errors = []) :
+    Parse.LexClean src ∧ ∃ (ts : List Parse.Tok) (e : Parse.Tok) (its : List Parse.DocItem),
+      Parse.sig (Parse.srcToks src) = ts ++ [e] ∧ e.kind = .eof ∧ its ≠ [] ∧
+      ts.map Parse.astOfV = (Parse.docToks its).map some ∧ (∀ i ∈ its, i.wfB) ∧
+      (FromCst.fromCst root).1 = its.map Parse.DocItem.conv ∧
+      ∀ items, Parse.strictItems its = some items →
+        items ≠ [] ∧ Parse.docToks its = itemsToks items ∧ (∀ a ∈ items, wfDefinition a.2 = true) ∧
+        (FromCst.fromCst root).1 = items.map (·.2) ∧
+        (ItemsFollowOk items → ∀ f, szDefinitions (items.map (·.2)) ≤ f →
+          pDocument f (itemsToks items) = some ((FromCst.fromCst root).1)) :=
+  Parse.parseDocument_agrees rl src root h herr
+
+/-- C05's `document_accepted_reference_parser` WITHOUT its hypothesis (a): the well-formedness of the strict
+    definitions is established by the parser (stage (iii)–(v) export `wfSel`, `wfVarDefs`, `LooseDef.wf`), so what is left
+    is (b) `ItemsFollowOk` alone.  (Stated here because the tree calculus cannot be imported into C05.lean: four
+    declaration names clash between ParserTree* / ParserTreeDef13 and ParserComplete27 / ParserExact*.) -/
+theorem document_accepted_reference_parser_wf (rl : Nat) (src : Parse.Str)
+    (herr : (parse .document none rl src).errors = []) :
+    ∃ (ts : List Parse.Tok) (e : Parse.Tok) (its : List Parse.DocItem),
+      Parse.sig (Parse.srcToks src) = ts ++ [e] ∧ e.kind = .eof ∧ ts.map Parse.astOfV = (Parse.docToks its).map some ∧
+      ∀ items, Parse.strictItems its = some items →
+        items ≠ [] ∧ Parse.docToks its = itemsToks items ∧ (∀ a ∈ items, wfDefinition a.2 = true) ∧
+        (ItemsFollowOk items → ∀ f, szDefinitions (items.map (·.2)) ≤ f →
+          pDocument f (itemsToks items) = some (items.map (·.2))) := by
+  obtain ⟨root, hroot⟩ := Parse.parseDocument_tree none rl src
+  obtain ⟨_, ts, e, its, h1, h2, _, h4, _, _, h7⟩ := Parse.parseDocument_agrees rl src root hroot herr
+  refine ⟨ts, e, its, h1, h2, h4, fun items hs => ?_⟩
+  obtain ⟨a, b, c, d, g⟩ := h7 items hs
+  exact ⟨a, b, c, fun hf f hsz => by rw [← d]; exact g hf f hsz⟩
+
+/-- **pipeline_print_parse_document, as far as it is proved.**  For every configuration and every non-empty
+    well-formed document `doc` (all 17 definition kinds; names, IntValues, FloatValues of the grammar's syntax) whose
+    printed text the CST parser model accepts (C05 `strict_document_accept_complete`: within the recursion limit it
+    does): the tree converts, item by item, to definitions whose tokens re-concatenate to the printed tokens, and
+    `Document::from_cst` returns `doc` ITSELF provided the parser's decomposition uses no liberty and satisfies
+    `ItemsFollowOk`.  For executable documents both provisos are theorems (`pipeline_print_parse_executable_document`);
+    for type-system definitions they are the parser's greediness and the injectivity of `LooseDef.toks`, not proved. -/
+theorem printed_document_pipeline (pre : Option Ast.Str) (level : Nat) (doc : Document) (hne : doc ≠ [])
+    (hwf : wfDefinitions doc = true) (hpre : ∀ p, pre = some p → p.all Apollo.Strs.isWs = true)
+    (hn : NamesWf (docSegs pre level doc)) (hi : IntsSpec (docSegs pre level doc)) (hf : FloatsSpec (docSegs pre level doc))
+    (rl : Nat) (root : Elem)
+    (h : (parse .document none rl (serializeDocument pre level doc).out).outcome = .tree root)
+    (herr : (parse .document none rl (serializeDocument pre level doc).out).errors = []) :
+    ∃ its : List Parse.DocItem, its ≠ [] ∧
+      Parse.docToks its = toksOf (cDocument (outputEmptyAtStart pre level) doc) ∧ (∀ i ∈ its, i.wfB) ∧
+      (FromCst.fromCst root).1 = its.map Parse.DocItem.conv ∧
+      ∀ items, Parse.strictItems its = some items → ItemsFollowOk items → (FromCst.fromCst root).1 = doc := by
+  have hlex := text_lexes_back_full pre level doc hpre hn hi hf
+  obtain ⟨_, ts, e, its, h1, h2, h3, h4, h5, h6, h7⟩ := Parse.parseDocument_agrees rl _ root h herr
+  obtain ⟨_, ts', e', h1', _, h4'⟩ := (Parse.sigToks_src_iff _ _).mp hlex
+  have hts : ts' = ts := by
+    have hh := h1.symm.trans h1'
+    have hl := congrArg List.length hh
+    simp at hl
+    exact ((List.append_inj hh hl).1).symm
+  subst hts
+  have htoks : Parse.docToks its = toksOf (cDocument (outputEmptyAtStart pre level) doc) := by
+    have : (Parse.docToks its).map some = (toksOf (cDocument (outputEmptyAtStart pre level) doc)).map some := h4.symm.trans h4'
+    exact Parse.map_some_inj this
+  refine ⟨its, h3, htoks, h5, h6, fun items hs hfol => ?_⟩
+  obtain ⟨a, b, c, d, g⟩ := h7 items hs
+  have p1 := g hfol (max (szDefinitions (items.map (·.2))) (szDefinitions doc)) (Nat.le_max_left _ _)
+  have p2 := document_roundtrip (outputEmptyAtStart pre level) doc
+    (max (szDefinitions (items.map (·.2))) (szDefinitions doc)) hne hwf (Nat.le_max_right _ _)
+  rw [← b, htoks, toksOf_cDocument, p2] at p1
+  exact (Option.some.inj p1).symm
+
+/-- **`from_cst_agrees_with_reference_parser` is FALSE as stated**: on the KNOWN FINDING of C05 (`schema { query: }` is
+    accepted without error — `root_operation_type_definition` calls `named_type`, which silently does nothing) the CST
+    parser model accepts, `Document::from_cst` returns a schema definition without that root operation, and the
+    reference parser rejects the tokens.  (Kernel-evaluated.)  The true statement is `document_pipeline_agrees`: agreement
+    in the strict case; on this input `strictItems` is `none`.  A leading `&` / `|`, the other liberty, is read by both
+    models alike (`type T implements & A { a: Int }` agrees). -/
+theorem from_cst_agreement_fails_on_incomplete_root_operation :
+    (Apollo.Parse.parse .document none 500 "schema { query: }".toList).errors = [] ∧
+      FromCst.modelsAgree "schema { query: }" = false ∧
+      FromCst.modelsAgree "type T implements & A { a: Int }" = true := by
+  decide +kernel
+
+theorem from_cst_agrees_with_reference_parser_refuted : ¬ from_cst_agrees_with_reference_parser := by
+  intro h
+  have h1 := h "schema { query: }" from_cst_agreement_fails_on_incomplete_root_operation.1
+  rw [from_cst_agreement_fails_on_incomplete_root_operation.2.1] at h1
+  cases h1
+
+end PipelineWhole
 
 end Apollo.C08
